@@ -243,6 +243,7 @@ func (bc bootstrapClient) Shutdown() {
 func (c *Conn) Close() error {
 	c.mu.Lock()
 	if c.closed {
+		c.mu.Unlock()
 		return fail("close on closed connection")
 	}
 	c.closed = true
